@@ -401,6 +401,16 @@ pub fn run() {
                 let _g = Paused::new();
                 std::fs::create_dir_all(cfg.root.join(unesc_path(f[1]))).unwrap();
             }
+            "ln" => {
+                // somebody hard-links an existing file under a second name
+                let _g = Paused::new();
+                let a = cfg.root.join(unesc_path(f[1]));
+                let b = cfg.root.join(unesc_path(f[2]));
+                if let Some(par) = b.parent() {
+                    std::fs::create_dir_all(par).unwrap();
+                }
+                std::fs::hard_link(&a, &b).unwrap();
+            }
             "mkdirt" => {
                 // directory with explicit modification / access time (after its content is planted)
                 let _g = Paused::new();
@@ -533,6 +543,12 @@ pub fn run() {
                             let chunks: usize = f.get(7).map(|s| s.parse().unwrap()).unwrap_or(1);
                             let t = match stage(f[6], chunks, true) { Ok((_, Some(t))) => t, Ok(_) => unreachable!(), Err(e) => return format!("StageErr {}", err_line(&e)) };
                             let p = t.path().to_path_buf();
+                            // optional 8th field: the caller's temp file carries this mode (octal), e.g. execute bits
+                            if let Some(m) = f.get(8).and_then(|s| u32::from_str_radix(s, 8).ok()) {
+                                use std::os::unix::fs::PermissionsExt;
+                                let _g = Paused::new();
+                                std::fs::set_permissions(&p, std::fs::Permissions::from_mode(m)).unwrap();
+                            }
                             mark("staged");
                             let r = if kind == "set_temp" { caches[h].set_temp_file(key(3), t) } else { caches[h].put_temp_file(key(3), t) };
                             let left = { let _g = Paused::new(); p.exists() };
